@@ -185,11 +185,13 @@ struct filler<1>
     template <typename Container, typename Tuple>
     void operator()(Container& hist, Tuple& lower, Tuple& upper, std::size_t bin_width = 1)
     {
+        // only make sure the bins exist (value-initialised to 0): when accumulating they may
+        // already hold counts that must be kept
         for (auto i = std::get<0>(lower); static_cast<std::size_t>(std::get<0>(upper) - i) >= bin_width; i += bin_width)
         {
-            hist(i / bin_width) = 0;
+            hist(i / bin_width);
         }
-        hist(std::get<0>(upper) / bin_width) = 0;
+        hist(std::get<0>(upper) / bin_width);
     }
 };
 
